@@ -2,7 +2,9 @@ package main
 
 import (
 	"fmt"
+	"os"
 	"runtime"
+	"runtime/pprof"
 	"strings"
 )
 
@@ -73,9 +75,22 @@ func soakClasses() []soakClass {
 	}
 }
 
+// soakProfile, if set (diagnostics only), makes every heap reading also write a heap profile <prefix>.<n>.pprof
+var (
+	soakProfile string
+	soakReading int
+)
+
 func liveHeap() int64 {
 	runtime.GC()
 	runtime.GC()
+	if soakProfile != "" {
+		soakReading++
+		if f, err := os.Create(fmt.Sprintf("%s.%d.pprof", soakProfile, soakReading)); err == nil {
+			pprof.Lookup("heap").WriteTo(f, 0)
+			f.Close()
+		}
+	}
 	var m runtime.MemStats
 	runtime.ReadMemStats(&m)
 	return int64(m.HeapAlloc)
